@@ -1,56 +1,4 @@
-import RedoModel.Lemmas.Deps
+import RedoModel.Props.C17a
 import RedoModel.Props.C17b
-/-!
-# C17 — redo-ood / redo-targets / redo-sources are safe and change nothing
-Property theorems only.  Model: `RedoModel/Deps.lean` (`isSource`, `isTarget`, `runCmd`).
--/
-namespace C17
-open RedoModel.Deps
-
-/-- `redo-targets` and `redo-sources` are disjoint. -/
-theorem partition (w : World) (R f : Nat) : ¬ (isTarget w R f = true ∧ isSource w R f = true) := by
-  unfold isTarget
-  intro ⟨h1, h2⟩
-  split at h1
-  · cases h1
-  · simp [h2] at h1
-
-/-- Everything listed as a target is marked generated. -/
-theorem target_is_generated (w : World) (R f : Nat) :
-    isTarget w R f = true → (getRec w R f).isGenerated = true := by
-  unfold isTarget
-  intro h
-  split at h
-  · cases h
-  · rename_i hg; simpa using hg
-
-/-- None of the three queries alters files, records or dependency rows (what `redo-ood`
-writes while checking is rolled back with its never-committed transaction); they only consume
-a run id. -/
-theorem read_only (d : Defects) (n : Nat) (w : World) (c : Cmd)
-    (hc : c = .ood ∨ c = .targets ∨ c = .sources) :
-    (runCmd d n c w).2.fs = w.fs ∧ (runCmd d n c w).2.recs = w.recs ∧ (runCmd d n c w).2.deps = w.deps ∧
-    (runCmd d n c w).2.runCounter = w.runCounter + 1 ∧ (runCmd d n c w).1.status = 0 := by
-  rcases hc with h | h | h <;> subst h
-  · have hgo : ∀ (R fuel : Nat) (fs : List Nat) (w0 : World) (cache acc : List Nat),
-        SameButRecs w0 (runCmd.go R fuel fs w0 cache acc).2 := by
-      intro R fuel fs
-      induction fs with
-      | nil => intro w0 cache acc; simp [runCmd.go, SameButRecs.refl]
-      | cons f fs ih =>
-        intro w0 cache acc
-        rw [runCmd.go]
-        have h1 := isDirty_frame true R fuel w0 cache f R [] none
-        generalize isDirty true R fuel w0 cache f R [] none = r at h1
-        obtain ⟨dr, w1, c1⟩ := r
-        exact h1.trans (ih w1 c1 _)
-    have := hgo (w.runCounter + 1) (2 * n + 4)
-      ((knownFiles { w with runCounter := w.runCounter + 1 } n).filter (isTarget { w with runCounter := w.runCounter + 1 } (w.runCounter + 1)))
-      { w with runCounter := w.runCounter + 1 } [] []
-    obtain ⟨h1, h2, h3, _⟩ := this
-    simp only [runCmd, allocRun]
-    refine ⟨h1, ?_, ?_, h3, ?_⟩ <;> trivial
-  · simp [runCmd, allocRun]
-  · simp [runCmd, allocRun]
-
-end C17
+/-! # C17 — the property theorems are in `C17a.lean` (classification, read-only) and `C17b.lean`
+(redo-ood's lower bound, queries do not change later builds, cover, the run-id well-formedness invariant). -/
